@@ -330,18 +330,38 @@ impl Check for C08 {
 						}
 					}
 					Err(d) => {
-						if ill_conditioned(&f, name, &s, &ak, k + i, tprefix) {
+						// Vidya as a configured average amplifies ulp-level differences of a nearly constant input into
+						// arbitrary smoothing factors (its Chande factor is |U-D|/(U+D) of changes at rounding level):
+						// ill-conditioned by construction (DESIGN.md §3.3), the other 14 MA kinds cover the seeding logic
+						let vidya_cfg = c.cfg.as_ref().map_or(false, |g| crate::cfgmut::ma_kinds_in(g).iter().any(|k| k == "vidya"));
+						if vidya_cfg || ill_conditioned(&f, name, &s, &ak, k + i, tprefix) {
 							stats.probe("ill_conditioned_step_exempt");
 							stats.exempt += 1;
 							break;
 						}
 						// how long has the feed been stuck (element identical to its predecessor) up to this element?
 						let flat = (1..=i).rev().take_while(|q| c.stream[*q] == c.stream[*q - 1]).count() as u64;
+						// trailing run of zero-range candles (high == low) and the window the configuration looks back over
+						let zero_range = (0..=i)
+							.rev()
+							.take_while(|q| {
+								let k = c.stream[*q].candle_f64();
+								k[1] == k[2]
+							})
+							.count() as u64;
+						let win = c.cfg.as_ref().map_or(n, |g| {
+							let f = |name: &str| g.field(name).and_then(crate::simfmt::Value::as_u64);
+							match (f("period1"), f("period2")) {
+								(Some(a), Some(b)) => a + b - 1,
+								_ => crate::cfgmut::max_period_in(g),
+							}
+						});
 						vs.push(
 							Violation::new("C08", name, "leading_copies_change_later_outputs", i, format!("with {k} extra leading copies of the first element, the output for stream element {i} differs: {d}"))
 								.tag("length", n)
 								.tag("kind", if d.starts_with("signal") { "signal" } else { "value" })
 								.tag("stuck_feed_covers_window", if flat >= n { "yes" } else { "no" })
+								.tag("zero_range_candles_cover_window", if c.cfg.is_some() && zero_range >= win { "yes" } else { "no" })
 								.tag("copies", k),
 						);
 						return vs;
